@@ -629,7 +629,7 @@ func init() {
 	register(&Prop{
 		ID: "C14", Level: "model_checking",
 		Technique:   "the C06 harness with the scan ended at every point (Close, RPC error, cancellation, server-declared end) crossed with every server chunking; server-side scanner table as observer",
-		Rule:        "configurations as C06 (3 rows, 1-2 cells, 1-3 regions, 5 ranges, both directions, row limit 1/inf, partials on/off) x ending {none, Close after k Next calls, cancel after k, RPC error on request j, more_results=false on request j while the region scanner is open} for every k,j <= 4 (thorough 7) x lease renewer on/off (and the j-th lease renewal failing: the scan must be unaffected); every chunking enumerated. Oracle: error/cancellation reported once then io.EOF; Close idempotent; after draining, no region scanner open on the server; no client thread left (the renewer has exited). Non-trivial = at least one non-default chunking choice. On tier W the scan's context additionally ends at EVERY scheduling step of a thread running client code between the first Next and the end of the scan (2 regions, 2 cells, row limit 1/inf, partials on/off, default chunking) (vrt.GoInterrupt: the event's thread is created waiting for that step and is the default choice there, so its position is a parameter of the unit and costs no deviation) with <=1 (thorough 2) further deviations; there only region scanners whose id the client has used count as left open.",
+		Rule:        "configurations as C06 (3 rows, 1-2 cells, 1-3 regions, 5 ranges, both directions, row limit 1/inf, partials on/off) x ending {none, Close after k Next calls, cancel after k, RPC error on request j, more_results=false on request j while the region scanner is open} for every k,j <= 4 (thorough 7) x lease renewer on/off (and the j-th lease renewal failing: the scan must be unaffected); every chunking enumerated. Oracle: error/cancellation reported once then io.EOF; Close idempotent; after draining, no region scanner open on the server; no client thread left (the renewer has exited). Non-trivial = at least one non-default chunking choice. On tier W the scan's context additionally ends at EVERY scheduling step of a thread running client code between the first Next and the end of the scan (2 regions, 2 cells, row limit 1/inf, partials on/off, default chunking) (vrt.GoInterrupt: the event's thread is created waiting for that step and is the default choice there, so its position is a parameter of the unit and costs no deviation) with <=1 further deviation (thorough 2 with row limit 1); there only region scanners whose id the client has used count as left open.",
 		Assumptions: []string{"as C06"},
 		Quick:       120 * time.Second, Thorough: 20 * time.Minute,
 		Units: c14Units,
@@ -788,7 +788,7 @@ func scanCancelAtStepUnits(base scanCfg, thorough bool) []*explore.Unit {
 		e.endKind, e.endAt = "cancel-at-step", k
 		u := scanWireUnit(e)
 		u.Bound = 1
-		if thorough {
+		if thorough && base.nrows == 1 {
 			u.Bound = 2
 		}
 		units = append(units, u)
